@@ -9,7 +9,7 @@ def run(d):
     pid = os.path.basename(os.path.dirname(d)).split("-")[1]
     name = os.path.basename(d)
     # further pairs of seeds for the same property: suffix x -> C, D; y -> E, F; z -> G, H
-    for suf, mp in (("x", {"A": "C", "B": "D"}), ("y", {"A": "E", "B": "F"}), ("z", {"A": "G", "B": "H"}), ("w", {"A": "I", "B": "J"}), ("v", {"A": "K", "B": "L"}), ("u", {"A": "M", "B": "N"}), ("t", {"A": "O", "B": "P"}), ("s", {"A": "Q", "B": "R"}), ("r", {"A": "S", "B": "T"}), ("q", {"A": "U", "B": "V"})):
+    for suf, mp in (("x", {"A": "C", "B": "D"}), ("y", {"A": "E", "B": "F"}), ("z", {"A": "G", "B": "H"}), ("w", {"A": "I", "B": "J"}), ("v", {"A": "K", "B": "L"}), ("u", {"A": "M", "B": "N"}), ("t", {"A": "O", "B": "P"}), ("s", {"A": "Q", "B": "R"}), ("r", {"A": "S", "B": "T"}), ("q", {"A": "U", "B": "V"}), ("p", {"A": "W", "B": "X"})):
         if pid.endswith(suf):
             pid = pid[:-1]
             name = mp[name]
